@@ -40,7 +40,7 @@ type Op[S any] struct {
 
 type Result struct {
 	States, Transitions, MaxDepth int
-	FrontierExhausted            bool
+	FrontierExhausted             bool
 }
 
 func histName[S any](sys *System[S], path []uint16) string {
@@ -83,7 +83,8 @@ func BFS[S any](c *core.Ctx, sys *System[S], depth int) Result {
 	frontier := [][]uint16{{}}
 	for d := 1; d <= depth && len(frontier) > 0; d++ {
 		cand := map[string][]uint16{}
-		var trans int
+		var plain [][]uint16
+		var trans, fresh int
 		c.Par(len(frontier), func(fi int) {
 			path := frontier[fi]
 			for oi := range sys.Ops {
@@ -114,10 +115,19 @@ func BFS[S any](c *core.Ctx, sys *System[S], depth int) Result {
 					continue
 				}
 				np := append(append(make([]uint16, 0, len(path)+1), path...), uint16(oi))
-				key := name
-				if sys.Key != nil {
-					key = sys.Key(s)
+				if sys.Key == nil {
+					// every history is its own state: nothing to deduplicate, and
+					// the last level needs no frontier
+					mu.Lock()
+					trans++
+					fresh++
+					if d < depth {
+						plain = append(plain, np)
+					}
+					mu.Unlock()
+					continue
 				}
+				key := sys.Key(s)
 				mu.Lock()
 				trans++
 				if _, ok := seen[key]; !ok {
@@ -130,21 +140,26 @@ func BFS[S any](c *core.Ctx, sys *System[S], depth int) Result {
 				mu.Unlock()
 			}
 		})
-		next := make([][]uint16, 0, len(cand))
+		next := make([][]uint16, 0, len(cand)+len(plain))
 		for k, p := range cand {
 			seen[k] = struct{}{}
 			next = append(next, p)
 		}
+		next = append(next, plain...)
 		res.Transitions += trans
-		res.States += len(next)
-		if len(next) > 0 {
+		if sys.Key == nil {
+			res.States += fresh
+		} else {
+			res.States += len(next)
+		}
+		if len(next) > 0 || fresh > 0 {
 			res.MaxDepth = d
 		}
 		// keep enumeration order deterministic regardless of worker timing
 		sortPaths(next)
 		frontier = next
 	}
-	res.FrontierExhausted = len(frontier) == 0
+	res.FrontierExhausted = len(frontier) == 0 && !(sys.Key == nil && res.MaxDepth == depth)
 	c.States(int64(res.States))
 	c.Transitions(int64(res.Transitions))
 	c.Traces(int64(res.Transitions))
